@@ -311,6 +311,36 @@ def _estimate_arm(F, cse, vn):
     return [x for x in cse.reachable() if cse.dominates(tb[0], x)]
 
 
+def rule_line_emitters_need_a_column(ctx, rid):
+    """A node kind whose render arm unconditionally starts a line of its own (Renderer::new_line_hard: <br>) must be
+    estimated at min_width >= 1: width_minus refuses a sub-block (TooNarrow) only when the space left after the
+    prefix is smaller than the children's min_width, so an estimate of 0 lets a marker wider than the page be
+    attached to the emitted (empty) line."""
+    F = ctx.facts
+    drn, arms = arms_of_do_render_node(F)
+    cse = F.one("RenderNode::calc_size_estimate")
+    n = 0
+    for vn, (tb, region) in sorted(arms.items()):
+        hard = [(bb, t) for bb, t in drn.calls(lambda cd, t: ends(cd, RTRAIT + "new_line_hard")) if bb in region]
+        if not hard:
+            continue
+        n += 1
+        blocks = _estimate_arm(F, cse, vn)
+        aggs = [st["rv"] for x in blocks for st in cse.stmts(x)
+                if (st.get("rv") or {}).get("agg") == "adt" and (st.get("rv") or {}).get("adt") == "SizeEstimate"]
+        okc = bool(aggs)
+        for rv in aggs:
+            k = op_const(rv["ops"][rv["fields"].index("min_width")]) if "min_width" in rv.get("fields", []) else None
+            if not (k is not None and isinstance(k.get("int"), int) and k["int"] >= 1):
+                okc = False
+        ctx.check(okc, rid, "%s:line-emitter-estimate.min_width>=1" % vn, cse.span, cse.id,
+                  "a %s node starts a line of its own (new_line_hard) but its size estimate does not reserve a column "
+                  "(min_width is not a constant >= 1, or the arm falls back to the all-zero default): a prefixed block "
+                  "holding only such nodes is then laid out %s wider than the page instead of failing with TooNarrow"
+                  % (vn, "with its marker"))
+    ctx.floor(rid, "node kinds that start a line of their own", n, 1)
+
+
 def rule_line_pushes_guarded(ctx, rid):
     """C02-E (INV-LINE): every append to the current line inside WrappedBlock is dominated by a width
     comparison or by a flush of the line; zero-width markers are exempt."""
